@@ -173,10 +173,25 @@ pub fn check(c: &Case, ctx: &mut Ctx) -> Result<(), Failure> {
     phys::validate(&b)?;
     with_d!(c.a.g.d, check_d(c, ctx))
 }
+pub fn gen_case_large(t: &mut Tape, tier: Tier) -> Option<Case> {
+    let g = gen::gen_phys_graph_large(t, 6)?;
+    let (free, masses) = if t.chance(0.2) { gen::gen_kin_data_special(t, &g) } else { gen::gen_kin_data(t, &g) };
+    let kin = gen::gen_routing(t, &g, &free, &masses, tier.pick(4, 6));
+    let kin2 = gen::gen_routing(t, &g, &free, &masses, tier.pick(4, 6));
+    let (x, mut classes) = gen::gen_point(t, &g, &gen::MODERATE);
+    classes.push("graph:13-14-edges");
+    if !crate::oracle::sym::Sym::new(&g, &kin.inflow, &kin.masses).f_nonzero() {
+        return None;
+    }
+    Some(Case { a: Phys { g, kin, x, classes: classes.into_iter().map(String::from).collect() }, kin2 })
+}
 pub fn run(tier: Tier, seed: u64) -> i32 {
     let t0 = Instant::now();
     let sp = Spec { id: "C09", rule: RULE, tape_len: 320, cases: tier.pick(60_000, 600_000), gen: gen_case, check, max_shrink_iters: 3000, shards: 16 };
     let mut stats = engine::run_spec(&sp, tier, seed);
+    // rare class with its own budget: 13/14-edge graphs (2^13 / 2^14 table entries, > 12 edges)
+    let spl = Spec { id: "C09", rule: RULE, tape_len: 520, cases: tier.pick(48, 800), gen: gen_case_large, check, max_shrink_iters: 40, shards: 16 };
+    stats.merge(engine::run_spec(&spl, tier, seed ^ 0x1a26e));
     engine::run_regressions::<Case>("C09", check, &mut stats);
     let extra = super::fuzzrun::maybe_fuzz("C09", "sampling", tier, seed, &mut stats, serde_json::json!({}));
     engine::finish("C09", tier, seed, RULE, stats, t0, extra, &["Feynman parameters read from the crate's debug log (checked by C07)", "brute-force 2-forest enumeration as oracle for F (all terms non-negative)", "tolerance 1000*eps*kappa*c_V with kappa, c_V computed exactly"])
